@@ -6,54 +6,48 @@
 (*               "correcting for many cores" while loop as explicit steps. *)
 (* A slice is <<lo, hi>> with hi exclusive; ranks are 0..P-1.              *)
 (***************************************************************************)
-EXTENDS Naturals, Integers, Sequences, FiniteSets, TLC, Json
+EXTENDS PartitionDefs, Sequences, FiniteSets, TLC, Json
 
 CONSTANTS MaxN, MaxP
 
-(* numpy.array_split: the first N % P sections get N \div P + 1 elements *)
-SectionSize(N, r, P) == (N \div P) + (IF r < (N % P) THEN 1 ELSE 0)
+(* SectionSize, Min, CeilDiv, SplitLoC, FitLo/FitHi and the get_functions machine are in PartitionDefs.tla *)
 RECURSIVE SplitLo(_, _, _)
-SplitLo(N, r, P) == IF r = 0 THEN 0 ELSE SplitLo(N, r - 1, P) + SectionSize(N, r - 1, P)
-SplitIdx(N, r, P) == <<SplitLo(N, r, P), SplitLo(N, r, P) + SectionSize(N, r, P)>>
+SplitLo(n, r, p) == IF r = 0 THEN 0 ELSE SplitLo(n, r - 1, p) + SectionSize(n, r - 1, p)
+SplitIdx(n, r, p) == <<SplitLo(n, r, p), SplitLo(n, r, p) + SectionSize(n, r, p)>>
 
-Min(a, b) == IF a < b THEN a ELSE b
-CeilDiv(a, b) == (a + b - 1) \div b
 
 (* the property (C14): contiguous, in rank order, disjoint, cover 0..N-1, empty only as lo = hi *)
-Tiles(sl, N, P) ==
-  /\ Len(sl) = P
+Tiles(sl, n, p) ==
+  /\ Len(sl) = p
   /\ sl[1][1] = 0
-  /\ sl[P][2] = N
-  /\ \A r \in 1..P : sl[r][1] <= sl[r][2]
-  /\ \A r \in 1..(P - 1) : sl[r][2] = sl[r + 1][1]
-TilesClauses(sl, N, P) ==
-    (IF Len(sl) # P THEN {"one_slice_per_rank"} ELSE
+  /\ sl[p][2] = n
+  /\ \A r \in 1..p : sl[r][1] <= sl[r][2]
+  /\ \A r \in 1..(p - 1) : sl[r][2] = sl[r + 1][1]
+TilesClauses(sl, n, p) ==
+    (IF Len(sl) # p THEN {"one_slice_per_rank"} ELSE
        (IF sl[1][1] # 0 THEN {"starts_at_zero"} ELSE {})
-  \cup (IF sl[P][2] # N THEN {"ends_at_N"} ELSE {})
-  \cup (IF \E r \in 1..P : sl[r][1] > sl[r][2] THEN {"negative_slice"} ELSE {})
-  \cup (IF \E r \in 1..(P - 1) : sl[r][2] # sl[r + 1][1] THEN {"contiguous_in_rank_order"} ELSE {}))
+  \cup (IF sl[p][2] # n THEN {"ends_at_N"} ELSE {})
+  \cup (IF \E r \in 1..p : sl[r][1] > sl[r][2] THEN {"negative_slice"} ELSE {})
+  \cup (IF \E r \in 1..(p - 1) : sl[r][2] # sl[r + 1][1] THEN {"contiguous_in_rank_order"} ELSE {}))
 
 ---------------------------------------------------------------------------
 (* get_functions as a small state machine: one behaviour per (N, P) *)
-VARIABLES N, P, nLs, pc
-pvars == <<N, P, nLs, pc>>
 
 PInit == /\ N \in 0..MaxN /\ P \in 1..MaxP
          /\ nLs = 0 /\ pc = "ceil"
-Ceil    == pc = "ceil" /\ nLs' = CeilDiv(N, P) /\ pc' = "loop" /\ UNCHANGED <<N, P>>
-Correct == pc = "loop" /\ nLs * (P - 1) > N /\ nLs' = nLs - 1 /\ UNCHANGED <<N, P, pc>>
-Exit    == pc = "loop" /\ ~(nLs * (P - 1) > N) /\ pc' = "done" /\ UNCHANGED <<N, P, nLs>>
-PNext == Ceil \/ Correct \/ Exit
 PSpec == PInit /\ [][PNext]_pvars
 
 (* Python slicing fcn_list[start:end] clips at N *)
-FitSliceOf(n, r, p, k) == <<Min(r * k, n), IF r = p - 1 THEN n ELSE Min((r + 1) * k, n)>>
+FitSliceOf(n, r, p, k) == <<FitLo(n, r, k), FitHi(n, r, p, k)>>
 FitSlices == [r \in 1..P |-> FitSliceOf(N, r - 1, P, nLs)]
 SplitSlices(n, p) == [r \in 1..p |-> SplitIdx(n, r - 1, p)]
 
 FitTiles   == pc = "done" => Tiles(FitSlices, N, P)
 SplitTiles == pc = "ceil" => Tiles(SplitSlices(N, P), N, P)
-NlsNonNeg  == nLs >= 0
+(* the closed forms PartitionProofs.tla reasons about are the running sums the code computes *)
+ClosedForm == pc = "ceil" => \A r \in 0..P : SplitLo(N, r, P) = SplitLoC(N, r, P)
+(* the defining law of \div and % that the proofs take from the SMT back end, evaluated by TLC as well *)
+DivModLaw  == pc = "ceil" => /\ N = P * (N \div P) + (N % P) /\ (N % P) \in 0..(P - 1)
 Balanced   == pc = "ceil" => LET sl == SplitSlices(N, P) sz == [r \in 1..P |-> sl[r][2] - sl[r][1]] IN
                  \A r, q \in 1..P : sz[r] - sz[q] \in {-1, 0, 1}
 (* concatenating per-rank maps in rank order equals the sequential map: a consequence of Tiles,
